@@ -150,6 +150,15 @@ static str apply(String & s, const std::vector<str> & a, bool allowAlias, String
       free(p);
       return st(r);
    }
+   if (c == "set") {const uint32 i = U(a[1]); if (i < s.Length()) s[i] = CH(2); return "-";}
+   if (c == "<<i") {s << atoi(a[1].c_str()); return "-";}
+   if (c == "<<b") {s << (a[1] == "1"); return "-";}
+   if (c == "++")  {s++; return "-";}
+   if (c == "--")  {s--; return "-";}
+   if (c == "eqh") {return s.Equals(CH(1)) ? "b1" : "b0";}
+   if (c == "eqhi"){return s.EqualsIgnoreCase(CH(1)) ? "b1" : "b0";}
+   if (c == "swhi"){return s.StartsWithIgnoreCase(CH(1)) ? "b1" : "b0";}
+   if (c == "ewhi"){return s.EndsWithIgnoreCase(CH(1)) ? "b1" : "b0";}
    if (c == "at")  {const uint32 i = U(a[1]); if (i < s.Length()) {if (s.CharAt(i) != s[i]) complaint = "CharAt != operator[]"; return "u"+num((unsigned char)s[i]);} return "u0";}
    if (c == "ioh") {const int r = s.IndexOf(CH(1), U(a[2])); if (s.Contains(CH(1), U(a[2])) != (r >= 0)) complaint = "Contains(char) disagrees with IndexOf"; return "i"+num(r);}
    if (c == "ios") {SA(1); const int r = s.IndexOf(S1, U(a[2])); if (s.Contains(S1, U(a[2])) != (r >= 0)) complaint = "Contains(String) disagrees with IndexOf"; return "i"+num(r);}
@@ -219,6 +228,12 @@ static str apply(String & s, const std::vector<str> & a, bool allowAlias, String
    if (c == "wosh"){prod = new String(s.WithoutSuffix(CH(1), U(a[2]))); return "r";}
    if (c == "woph"){prod = new String(s.WithoutPrefix(CH(1), U(a[2]))); return "r";}
    if (c == "wons"){uint32 v = 12345; prod = new String(s.WithoutNumericSuffix(&v)); return "ru"+num(v);}
+   if (c == "wsfh") {prod = new String(s.WithSuffix(CH(1))); return "r";}
+   if (c == "wpfh") {prod = new String(s.WithPrefix(CH(1))); return "r";}
+   if (c == "wosfi"){SA(1); prod = new String(s.WithoutSuffixIgnoreCase(S1, U(a[2]))); return "r";}
+   if (c == "wopfi"){SA(1); prod = new String(s.WithoutPrefixIgnoreCase(S1, U(a[2]))); return "r";}
+   if (c == "woshi"){prod = new String(s.WithoutSuffixIgnoreCase(CH(1), U(a[2]))); return "r";}
+   if (c == "wophi"){prod = new String(s.WithoutPrefixIgnoreCase(CH(1), U(a[2]))); return "r";}
    if (c == "pls") {SA(1); prod = new String(s + S1); if (*prod != (s + S1())) complaint = "operator+(String) != operator+(cstr)"; return "r";}
    fprintf(stderr, "bad op [%s]\n", c.c_str()); exit(2);
    return "";
@@ -323,6 +338,15 @@ static str ref_apply(str & s, const std::vector<str> & a, bool & hasProd, str & 
       if (z == str::npos) return "err";    // unterminated (or empty) input must be rejected; the value is then unspecified
       s = b.substr(0, z); return "ok";
    }
+   if (c == "set") {const uint32 i = U(a[1]); if (i < s.size()) s[i] = RH(2); return "-";}
+   if (c == "<<i") {s += num(atoi(a[1].c_str())); return "-";}
+   if (c == "<<b") {s += (a[1] == "1") ? "true" : "false"; return "-";}
+   if (c == "++")  {s += ' '; return "-";}
+   if (c == "--")  {if (!s.empty()) s.erase(s.size()-1); return "-";}
+   if (c == "eqh") {return ((s.size() == 1)&&(s[0] == RH(1))) ? "b1" : "b0";}
+   if (c == "eqhi"){return ((s.size() == 1)&&(lc(s[0]) == lc(RH(1)))) ? "b1" : "b0";}
+   if (c == "swhi"){return ((!s.empty())&&(lc(s[0]) == lc(RH(1)))) ? "b1" : "b0";}
+   if (c == "ewhi"){return ((!s.empty())&&(lc(s[s.size()-1]) == lc(RH(1)))) ? "b1" : "b0";}
    if (c == "at")  {const uint32 i = U(a[1]); return "u"+num((i < s.size()) ? (unsigned char)s[i] : 0);}
    if (c == "ioh") {const uint32 f = U(a[2]); if (f >= s.size()) return "i-1"; if (RH(1) == 0) return "i"+num(s.size()); const size_t p = s.find(RH(1), f); return "i"+num((p == str::npos) ? -1 : (long long)p);}
    if ((c == "ios")||(c == "ioc")) {const str n = (c == "ios") ? RS(1) : RC(1); const uint32 f = U(a[2]); if (f >= s.size()) return "i-1"; const size_t p = s.find(n, f); return "i"+num((p == str::npos) ? -1 : (long long)p);}
@@ -378,6 +402,12 @@ static str ref_apply(str & s, const std::vector<str> & a, bool & hasProd, str & 
    if (c == "wosh"){prod = s; uint32 max = U(a[2]); while((max > 0)&&(!prod.empty())&&(prod[prod.size()-1] == RH(1))) {prod.erase(prod.size()-1); max--;} return "r";}
    if (c == "woph"){prod = s; uint32 max = U(a[2]); while((max > 0)&&(!prod.empty())&&(prod[0] == RH(1))) {prod.erase(0, 1); max--;} return "r";}
    if (c == "wons"){size_t i = s.size(); while((i>0)&&(isdig(s[i-1]))) i--; unsigned long long v = 0; for (size_t j=i; j<s.size(); j++) v = v*10+(unsigned long long)(s[j]-'0'); prod = s.substr(0, i); return "ru"+num((uint32_t)v);}
+   if (c == "wsfh") {prod = s; if (!((!s.empty())&&(s[s.size()-1] == RH(1)))&&(RH(1) != 0)) prod += RH(1); return "r";}
+   if (c == "wpfh") {prod = s; if ((((s.empty()) ? '\0' : s[0]) != RH(1))&&(RH(1) != 0)) prod = str(1, RH(1))+s; return "r";}
+   if (c == "wosfi"){prod = s; const str x = lower(RS(1)); uint32 max = U(a[2]); if (!x.empty()) while((max > 0)&&(ends(lower(prod), x))) {prod.erase(prod.size()-x.size()); max--;} return "r";}
+   if (c == "wopfi"){prod = s; const str x = lower(RS(1)); uint32 max = U(a[2]); if (!x.empty()) while((max > 0)&&(starts(lower(prod), x))) {prod.erase(0, x.size()); max--;} return "r";}
+   if (c == "woshi"){prod = s; uint32 max = U(a[2]); while((max > 0)&&(!prod.empty())&&(lc(prod[prod.size()-1]) == lc(RH(1)))) {prod.erase(prod.size()-1); max--;} return "r";}
+   if (c == "wophi"){prod = s; uint32 max = U(a[2]); while((max > 0)&&(!prod.empty())&&((prod[0] == uc(RH(1)))||(prod[0] == lc(RH(1))))) {prod.erase(0, 1); max--;} return "r";}
    if (c == "pls") {prod = s + RS(1); return "r";}
    fprintf(stderr, "bad op (ref) [%s]\n", c.c_str()); exit(2);
    return "";
@@ -416,11 +446,14 @@ static void run_case(int k, const str & body, bool nulStream)
          const std::vector<str> a = split(opText, ':');
 
          // twin and reference first (they must see the subject's state before the operation)
-         String * twin = new String(); make_twin(*twin, *s);
-         str twinComplaint; String * twinProd = NULL;
-         const str twinOut = apply(*twin, a, false, twinProd, twinComplaint);
-         bool refHasProd; str refProd;
-         const str refOut = ref_apply(ideal, a, refHasProd, refProd);
+         String * twin = new String(); str twinComplaint; String * twinProd = NULL; str twinOut;
+         bool refHasProd = false; str refProd; str refOut;
+         if (!nulStream)
+         {
+            make_twin(*twin, *s);
+            twinOut = apply(*twin, a, false, twinProd, twinComplaint);
+            refOut = ref_apply(ideal, a, refHasProd, refProd);
+         }
 
          str complaint; String * prod = NULL;
          const str out = apply(*s, a, true, prod, complaint);
@@ -435,15 +468,15 @@ static void run_case(int k, const str & body, bool nulStream)
          const str sc = shape_complaint(*s); if (!sc.empty()) why = "shape: "+sc;
          if ((why.empty())&&(prod)&&(!assign)) {const str pc = shape_complaint(*prod); if (!pc.empty()) why = "shape of result: "+pc;}
          if ((why.empty())&&(!nulStream)&&(strlen(s->Cstr()) != s->Length())) why = "shape: strlen(Cstr()) != Length()";
-         if ((why.empty())&&(!complaint.empty())) why = "variants: "+complaint;
-         if (why.empty())
+         if ((why.empty())&&(!complaint.empty())&&(!nulStream)) why = "variants: "+complaint;
+         if ((why.empty())&&(!nulStream))
          {
             if (out != twinOut) why = "twin: result differs from the same operation on the other storage mode / with a separate copy ("+out+" vs "+twinOut+")";
             else if ((prod != NULL) != (twinProd != NULL)) why = "twin: produced";
             else if ((prod)&&(!assign)&&(content_of(*prod) != content_of(*twinProd))) why = "twin: produced String differs";
             else if (content_of(*s) != content_of(*twin)) why = "twin: contents differ afterwards";
          }
-         if (why.empty())
+         if ((why.empty())&&(!nulStream))
          {
             if ((refOut != "?")&&(refOut != out)) {if (!((refOut == "err")&&(a[0] == "uf")&&(false))) why = "ideal: result "+out+" but the ideal byte string gives "+refOut;}
             else if ((refHasProd)&&(prod)&&(!assign)&&(content_of(*prod) != refProd)) why = "ideal: produced String differs from the ideal byte string";
